@@ -98,10 +98,7 @@ def run(c):
         seen[key] = seen.get(key, 0) + 1
         if seen[key] <= 2:
             s = scen[owner[i]]
-            r2, _ = c.run_worker("vario", [s], parallel=1)
-            ev2 = [{k: v for k, v in x.items() if k not in ("sc", "panic", "ev")} for x in r2.get(s["sc"], [])]
-            if not c.validate_traces("EfiVarIoTrace", "EfiVarIoTrace.cfg", ev2):
-                raise vf.FrameworkError("rejection not reproduced")
+            c.reproduce_trace("vario", s["sc"], "EfiVarIoTrace", "EfiVarIoTrace.cfg", ("sc", "panic", "ev"))
         c.report(key, "%s %s of %s: FS calls [%s], result %s - not allowed by the contract" % (b.get("api"), b.get("kind"), b.get("path"), shape, e.get("res")),
                  dict({"api_begin": b, "fs": fs, "rejected": e, "step_index": b.get("i"), "scenario_dir": scen[owner[i]]["dir"]},
                       **c.rp("vario", scen[owner[i]], validate=("EfiVarIoTrace", "EfiVarIoTrace.cfg"), strip=("sc", "panic", "ev"))))
